@@ -129,6 +129,8 @@ func (s *Socket) RecvMsg(b []byte) (int, Msg, error) {
 		return 0, msg, err
 	}
 	if flags&(syscall.MSG_TRUNC|syscall.MSG_CTRUNC) != 0 {
+		// descriptors that did arrive are already installed: do not leak them
+		closeReceivedFds(s.recvBuff[:oobn])
 		return 0, msg, errMessageTruncated
 	}
 	// parse oob msg
@@ -141,6 +143,26 @@ func (s *Socket) RecvMsg(b []byte) (int, Msg, error) {
 		return 0, msg, err
 	}
 	return n, msg, nil
+}
+
+// closeReceivedFds closes every descriptor carried by the control data of a rejected message
+func closeReceivedFds(oob []byte) {
+	msgs, err := syscall.ParseSocketControlMessage(oob)
+	if err != nil {
+		return
+	}
+	for i := range msgs {
+		if msgs[i].Header.Level != syscall.SOL_SOCKET || msgs[i].Header.Type != syscall.SCM_RIGHTS {
+			continue
+		}
+		fds, err := syscall.ParseUnixRights(&msgs[i])
+		if err != nil {
+			continue
+		}
+		for _, fd := range fds {
+			syscall.Close(fd)
+		}
+	}
 }
 
 func parseMsg(msgs []syscall.SocketControlMessage) (msg Msg, err error) {
